@@ -146,6 +146,30 @@ impl Opts {
     }
 }
 
+/// a buffered source whose buffer ends at `cut` (and then holds the rest)
+struct SplitSource<'a> {
+    data: &'a [u8],
+    pos: usize,
+    cut: usize,
+}
+impl std::io::Read for SplitSource<'_> {
+    fn read(&mut self, buf: &mut [u8]) -> std::io::Result<usize> {
+        let avail = std::io::BufRead::fill_buf(self)?;
+        let n = avail.len().min(buf.len());
+        buf[..n].copy_from_slice(&avail[..n]);
+        self.pos += n;
+        Ok(n)
+    }
+}
+impl std::io::BufRead for SplitSource<'_> {
+    fn fill_buf(&mut self) -> std::io::Result<&[u8]> {
+        Ok(if self.pos < self.cut { &self.data[self.pos..self.cut] } else { &self.data[self.pos..] })
+    }
+    fn consume(&mut self, n: usize) {
+        self.pos = (self.pos + n).min(self.data.len());
+    }
+}
+
 fn off_json(o: &rpm::PackageSegmentOffsets) -> Value {
     json!({"lead": o.lead, "sig": o.signature_header, "hdr": o.header, "payload": o.payload})
 }
@@ -219,6 +243,19 @@ pub fn observe(input: &[u8], o: &Opts) -> Value {
         Ok(Ok(p)) => p,
     };
     ev["accepted"] = json!(true);
+    if o.gets {
+        // the same bytes handed over by a buffered source whose buffer ends at each position around the end of the
+        // signature header (inside its alignment padding, at the intro of the main header): the same package
+        let cuts: Vec<usize> = match rawhdr::layout(input) {
+            Some(l) => (l.hdr_at.saturating_sub(9)..=(l.hdr_at + 17).min(input.len())).chain([95usize, 97, 112]).collect(),
+            None => vec![95, 97, 112],
+        };
+        let same = guarded(|| cuts.iter().all(|&c| {
+            let mut src = SplitSource { data: input, pos: 0, cut: c.min(input.len()) };
+            matches!(Package::parse(&mut src), Ok(p) if p.metadata == pkg.metadata && p.content == pkg.content)
+        }));
+        ev["accepted_split"] = json!(same.unwrap_or(false));
+    }
     let differing: std::cell::RefCell<Option<Vec<u8>>> = std::cell::RefCell::new(None);
     let differing_short: std::cell::RefCell<Option<Vec<u8>>> = std::cell::RefCell::new(None);
     let r = guarded(|| -> Result<Value, Error> {
@@ -231,7 +268,8 @@ pub fn observe(input: &[u8], o: &Opts) -> Value {
         // produced by writing the package" which the reported offsets have to describe
         let mut short = vec![];
         pkg.write(&mut Short(&mut short, 3))?;
-        if short != written {
+        let short_equal = short == written;
+        if !short_equal {
             *differing_short.borrow_mut() = Some(short);
         }
         let pkg2 = Package::parse(&mut &written[..])?;
@@ -294,7 +332,7 @@ pub fn observe(input: &[u8], o: &Opts) -> Value {
             let _ = std::fs::remove_dir_all(&dir);
         }
         Ok(json!({"written_len": written.len(), "diff": diff, "tail_equal": tail_equal,
-                  "reparsed_equal": reparsed_equal && meta_ok && file_api_equal, "rewritten_equal": rewritten == written,
+                  "reparsed_equal": reparsed_equal && meta_ok && file_api_equal, "rewritten_equal": rewritten == written, "short_equal": short_equal,
                   "off": off_json(&pkg.metadata.get_package_segment_offsets()),
                   "content_len": pkg.content.len()}))
     });
